@@ -219,6 +219,7 @@ type Engine struct {
 	axioms      map[string]bool
 	globalByID  map[int]*ssa.Global
 	initSets    map[*ssa.Global]bool
+	liveCache       map[*ssa.Function]*fnLiveness
 	modelledGlobals map[int]bool // foreign globals with a modelled initial value (intr_errors.go)
 }
 
@@ -747,7 +748,11 @@ func (e *Engine) step(st *State) (forks []*State) {
 		}
 		fr.regs[in] = e.unop(st, in, e.val(fr, in.X))
 	case *ssa.Store:
-		e.store(st, e.val(fr, in.Addr).(PtrVal), e.val(fr, in.Val))
+		if sp, ok := e.val(fr, in.Addr).(SymPtr); ok {
+			e.storeSym(st, sp, e.val(fr, in.Val))
+		} else {
+			e.store(st, e.val(fr, in.Addr).(PtrVal), e.val(fr, in.Val))
+		}
 	case *ssa.FieldAddr:
 		p := e.val(fr, in.X).(PtrVal)
 		if p.Obj == 0 {
@@ -1156,6 +1161,9 @@ func (e *Engine) intern(c string) int {
 func (e *Engine) unop(st *State, in *ssa.UnOp, x Value) Value {
 	switch in.Op {
 	case token.MUL:
+		if sp, ok := x.(SymPtr); ok {
+			return e.loadSym(st, sp)
+		}
 		return e.load(st, x.(PtrVal))
 	case token.ARROW:
 		return e.chanRecv(st, x, in.CommaOk, in.Type())
@@ -1607,7 +1615,8 @@ func (e *Engine) indexAddr(st *State, fr *Frame, in *ssa.IndexAddr) []*State {
 	default:
 		unsupported("IndexAddr on %T", x)
 	}
-	idx = Resize(idx, 64, true)
+	_, idxSigned, _ := intWidth(in.Index.Type())
+	idx = Resize(idx, 64, idxSigned) // an unsigned index (a byte into a 256-entry table) is zero-extended
 	if idx.IsConst() {
 		i := int(idx.Signed())
 		if i < 0 || i >= n {
@@ -1627,6 +1636,30 @@ func (e *Engine) indexAddr(st *State, fr *Frame, in *ssa.IndexAddr) []*State {
 		st.pc = append(st.pc, Not(oob))
 	} else {
 		e.S.EndModel()
+	}
+	// an array/slice of scalars: no fork — a symbolic element pointer whose load is an ite-chain over the elements and
+	// whose store is a conditional update of each (a table lookup such as strings.asciiSpace[c] would otherwise fork 256 ways)
+	if o, ok := st.heap[obj]; ok || e.gheap[obj] != nil {
+		if !ok {
+			o = e.gheap[obj]
+		}
+		if arr, isArr := getPath(o, base).(ArrayVal); isArr && n >= 2 {
+			scalars := true
+			var srt Sort
+			for i := 0; i < n; i++ {
+				t, isT := arr.Elems[off+i].(*Term)
+				if !isT || (i > 0 && t.Sort != srt) {
+					scalars = false
+					break
+				}
+				srt = t.Sort
+			}
+			if scalars {
+				fr.regs[in] = SymPtr{Obj: obj, Base: base, Off: off, N: n, Idx: idx}
+				fr.ip++
+				return nil
+			}
+		}
 	}
 	var forks []*State
 	// simple implementation: clone for each feasible index
@@ -1659,7 +1692,8 @@ func (e *Engine) indexAddr(st *State, fr *Frame, in *ssa.IndexAddr) []*State {
 
 func (e *Engine) index(st *State, fr *Frame, in *ssa.Index) []*State {
 	x := e.val(fr, in.X)
-	idx := Resize(asTerm(e.val(fr, in.Index)), 64, true)
+	_, idxSigned, _ := intWidth(in.Index.Type())
+	idx := Resize(asTerm(e.val(fr, in.Index)), 64, idxSigned)
 	var elems []Value
 	switch c := x.(type) {
 	case ArrayVal:
@@ -2081,4 +2115,45 @@ func (e *Engine) modelNow() (map[string]uint64, []UFApp) {
 		out = append(out, app)
 	}
 	return m, out
+}
+
+// SymPtr is a pointer to element Idx (symbolic, proved in range) of a run of N scalar elements starting at Off of the
+// array at Base inside object Obj.
+type SymPtr struct {
+	Obj  int
+	Base []int
+	Off  int
+	N    int
+	Idx  *Term
+}
+
+func (e *Engine) symArr(st *State, sp SymPtr) ArrayVal {
+	o, ok := st.heap[sp.Obj]
+	if !ok {
+		o = e.gheap[sp.Obj]
+	}
+	return getPath(o, sp.Base).(ArrayVal)
+}
+
+func (e *Engine) loadSym(st *State, sp SymPtr) Value {
+	arr := e.symArr(st, sp)
+	res := arr.Elems[sp.Off+sp.N-1].(*Term)
+	for i := sp.N - 2; i >= 0; i-- {
+		res = Ite(Eq(sp.Idx, ConstBV(uint64(i), 64)), arr.Elems[sp.Off+i].(*Term), res)
+	}
+	return res
+}
+
+func (e *Engine) storeSym(st *State, sp SymPtr, v Value) {
+	arr := e.symArr(st, sp)
+	ne := append([]Value(nil), arr.Elems...)
+	nv := asTerm(v)
+	for i := 0; i < sp.N; i++ {
+		ne[sp.Off+i] = Ite(Eq(sp.Idx, ConstBV(uint64(i), 64)), nv, arr.Elems[sp.Off+i].(*Term))
+	}
+	o, ok := st.heap[sp.Obj]
+	if !ok {
+		o = e.gheap[sp.Obj]
+	}
+	st.heap[sp.Obj] = setPath(o, sp.Base, ArrayVal{Elems: ne})
 }
